@@ -380,7 +380,7 @@ impl<'a, 'b> Script<'a, 'b> {
             return;
         }
         tokio::time::sleep(us(700)).await;
-        let kind = self.side_next(9);
+        let kind = self.side_next(12);
         let pidx = self.side_next(self.puppets.len() as u64) as usize;
         let p = self.puppets[pidx];
         let flip = |sig: &crypto::Signature, bit: usize| {
@@ -482,6 +482,32 @@ impl<'a, 'b> Script<'a, 'b> {
                 // correctly signed timeout for a future round whose high QC is forged (its sender alone signed it)
                 let fake = self.w.qc_for(sha512_32(&cur.to_le_bytes()), cur + 2, &[p]);
                 ("timeout-valid-signature-forged-qc", Some(ConsensusMessage::Timeout(self.w.timeout(p, cur + 3, fake))))
+            }
+            8 => {
+                // a timeout in the node's OWN name (the node signs its own timeouts and may be tempted
+                // to skip checking them): junk signature, vote-less QC for a far future round
+                let me = self.w.pk(self.sut);
+                let fake = QC { hash: sha512_32(b"own-name"), round: cur + 40, votes: Vec::new() };
+                let mut t = self.w.timeout(p, cur, fake);
+                t.author = me;
+                ("timeout-in-own-name-forged", Some(ConsensusMessage::Timeout(t)))
+            }
+            9 => {
+                // a vote in the node's own name for the tip, signed by somebody else
+                let me = self.w.pk(self.sut);
+                match &tip {
+                    Some(t) => {
+                        let mut v = self.w.vote_for(p, t.clone(), self.round_of(t));
+                        v.author = me;
+                        ("vote-in-own-name-forged", Some(ConsensusMessage::Vote(v)))
+                    }
+                    None => ("none", None),
+                }
+            }
+            10 => {
+                // a timeout whose high QC claims the genesis hash under a later round, without votes
+                let fake = QC { hash: Digest::default(), round: cur + 30, votes: Vec::new() };
+                ("timeout-genesis-hash-qc-of-later-round", Some(ConsensusMessage::Timeout(self.w.timeout(p, cur, fake))))
             }
             _ => {
                 // vote by a key that is not in the committee
@@ -1018,11 +1044,12 @@ impl<'a, 'b> Script<'a, 'b> {
         if !self.puppets.contains(&author) {
             return;
         }
-        let mut kind = self.t.below(5);
+        let mut kind = self.t.below(6);
         if kind == 2 && self.w.stake_of(&[author]) >= self.w.quorum() {
             kind = 1;
         }
         let qc = match kind {
+            5 => QC { hash: Digest::default(), round: round - 1, votes: Vec::new() },
             0 => QC { hash: target.clone(), round: 0, votes: Vec::new() },
             1 => QC { hash: target.clone(), round: tb.round, votes: Vec::new() },
             2 => self.w.qc_for(target.clone(), tb.round, &[author]),
@@ -1050,7 +1077,7 @@ impl<'a, 'b> Script<'a, 'b> {
         let b = self.w.block(author, round, qc, tc, Vec::new());
         self.mark_forged(&b);
         self.register(&b);
-        let name = ["round-0-no-votes", "no-votes", "single-signer", "repeated-signer", "signatures-for-another-round"][kind];
+        let name = ["round-0-no-votes", "no-votes", "single-signer", "repeated-signer", "signatures-for-another-round", "genesis-hash-under-previous-round"][kind];
         self.note(json!({"step": "forged-certificate-proposal", "round": round, "names_block_of_round": tb.round, "forgery": name}));
         self.stat("forged-certificate-proposal");
         self.send_to_sut(author, &ConsensusMessage::Propose(b)).await;
@@ -1063,7 +1090,23 @@ impl<'a, 'b> Script<'a, 'b> {
         let delta = self.t.range(1, 4);
         let future = self.t.chance(1, 2);
         let round = if future { self.cur + delta } else { self.cur.saturating_sub(delta).max(1) };
-        match self.t.below(5) {
+        match self.t.below(7) {
+            5 => {
+                // a timeout in the node's own name, not signed by it, with a vote-less QC of a far round
+                let me = self.w.pk(self.sut);
+                let fake = QC { hash: sha512_32(b"own-name"), round: self.cur + 40, votes: Vec::new() };
+                let mut t = self.w.timeout(p, self.cur.max(round), fake);
+                t.author = me;
+                self.send_to_sut(p, &ConsensusMessage::Timeout(t)).await;
+                self.stat("timeout-in-own-name-forged");
+            }
+            6 => {
+                // a correctly signed timeout whose high QC claims the genesis hash under a later round
+                let fake = QC { hash: Digest::default(), round: self.cur + 30, votes: Vec::new() };
+                let t = self.w.timeout(p, self.cur.max(round), fake);
+                self.send_to_sut(p, &ConsensusMessage::Timeout(t)).await;
+                self.stat("timeout-genesis-hash-qc-of-later-round");
+            }
             3 => {
                 // a forged TC message (one genuine signature, the rest junk): must not move the node
                 let signers = self.puppet_quorum();
